@@ -8,7 +8,7 @@
   Annotation encoding (mirrored by harness/props/c17.py `enc`):
     ["b", name]  ["s", generic name, [args]]  ["u", "typing"|"pipe"|"optional", [members]]  ["l", hasNone]
     ["F", a] Final  ["C", a] ClassVar  ["N", a] NewType  ["A", a] TypeAliasType
-    ["tb", bound]  ["tc", [constraints]]  ["tf"]  ["r", startsWithLiteral]
+    ["tb", bound]  ["tc", [constraints]]  ["tf"]  ["r", startsWithLiteral, hasBracket]
 -/
 import TypelibModel.Drv.Core
 import TypelibModel.Model.Inspect
@@ -53,7 +53,7 @@ partial def annOfJson (j : Json) : Except String Ann :=
     | [.str "tb", x] => do pure (.tvarBound (← annOfJson x))
     | [.str "tc", .arr xs] => do pure (.tvarConstr (← xs.toList.mapM annOfJson))
     | [.str "tf"] => .ok .tvarFree
-    | [.str "r", .bool l] => .ok (.fref l)
+    | [.str "r", .bool l, .bool b] => .ok (.fref l b)
     | _ => .error s!"bad annotation {j}"
   | _ => .error s!"bad annotation {j}"
 
@@ -69,7 +69,7 @@ partial def annToJson : Ann → Json
   | .tvarBound x => .arr #[.str "tb", annToJson x]
   | .tvarConstr xs => .arr #[.str "tc", .arr (xs.map annToJson).toArray]
   | .tvarFree => .arr #[.str "tf"]
-  | .fref l => .arr #[.str "r", .bool l]
+  | .fref l b => .arr #[.str "r", .bool l, .bool b]
 
 def jOB : Option Bool → Json
   | some b => .bool b
@@ -118,8 +118,10 @@ def modelAnswers (a : Ann) : Json :=
         ("iscollectiontype", jOB (iscollectiontypeM lat a)), ("ismappingtype", jOB (ismappingtypeM lat a)),
         ("issubscriptedcollectiontype", jOB (subscriptedCollection a))]
     ++ groupB.map (fun p => (p.1, Json.bool (predB lat p.2 a)))
-    ++ [("isbuiltinsubtype", jOB (isbuiltinsubtypeM lat a)), ("isstdlibsubtype", .bool (isstdlibsubtypeM lat a)),
-        ("isbuiltintype", .bool (isbuiltintypeM lat a)), ("isclassvartype", .bool (isclassvartypeM lat a)),
+    ++ (if (resolveSupertype a).isBase then
+          [("isbuiltinsubtype", jOB (isbuiltinsubtypeM lat a)), ("isstdlibsubtype", .bool (isstdlibsubtypeM lat a))]
+        else [])    -- issubclass of a types.GenericAlias walks the origin's __bases__: not modelled
+    ++ [("isbuiltintype", .bool (isbuiltintypeM lat a)), ("isclassvartype", .bool (isclassvartypeM lat a)),
         ("isuniontype", .bool (isuniontypeM lat a)), ("isoptionaltype", .bool (isoptionaltypeM lat a)),
         ("isliteral", .bool (isliteralM lat a)), ("isfinal", .bool (isfinalM lat a)),
         ("should_unwrap", .bool (shouldUnwrapM lat a)), ("isforwardref", .bool (isforwardrefM a)),
